@@ -326,17 +326,18 @@ def cutTilesAux {α} (z : α) (M : Img α) (R C tr tc : Int) (ch : Int) :
         | .ok (rows, frs) => .ok (⟨ro, co, base, ch⟩ :: rows, t :: frs)
     else cutTilesAux z M R C tr tc ch offs keep base
 
+/-- `np.any(get_tile_array(...))` for the tile of segment matrix `m` at offsets `o = (column, row)` -/
+def tileNonEmpty {α} [BEq α] (z : α) (R C tr tc : Int) (m : Int × Img α) (o : Int × Int) : Except ErrKind Bool :=
+  match getTileArray z m.2 R C o.2 o.1 tr tc with
+  | .error e => .error e
+  | .ok t => .ok (!(imgAllZero z t tr tc))
+
 /-- which tiles of which segment are encoded: with `omitEmpty`, a (segment, tile) frame is dropped when that
 segment's tile is all zero — unless every tile of every segment is zero, in which case nothing is dropped
 (`_get_nonempty_tile_indices` reverts to all frames) -/
 def keepMask {α} [BEq α] (z : α) (Ms : List (Int × Img α)) (R C tr tc : Int) (offs : List (Int × Int))
     (omitEmpty : Bool) : Except ErrKind (List (List Bool)) :=
-  let nonEmpty : Except ErrKind (List (List Bool)) := Ms.mapM (fun (m : Int × Img α) =>
-    offs.mapM (fun (o : Int × Int) =>
-      match getTileArray z m.2 R C o.2 o.1 tr tc with
-      | .error e => .error e
-      | .ok t => .ok (!(imgAllZero z t tr tc))))
-  match nonEmpty with
+  match Ms.mapM (fun m => offs.mapM (tileNonEmpty z R C tr tc m)) with
   | .error e => .error e
   | .ok ne =>
     if !omitEmpty then .ok (ne.map (fun l => l.map (fun _ => true)))
